@@ -8,6 +8,8 @@
 
 #include <tulz/observer/Subject.h>
 
+#include <tulz/observer/USubscription.h>
+
 #include "../common/runner.h"
 
 extern "C" int __lsan_do_recoverable_leak_check(void) __attribute__((weak));
@@ -200,6 +202,12 @@ void run_typed(const Execution &ex) {
     g_max_depth = (int) ex.cfg.num("maxdepth", 2);
     g_max_subs = (int) ex.cfg.num("maxsubs", 5);
     bool filter = ex.cfg.num("filter", 0) != 0;
+    // usub=1: the named handles are type-erased USubscriptions; every handle operation and every state report goes
+    // through USubscription::Invoker (UnsubS and Swap have no counterpart there and are skipped)
+    bool usub = ex.cfg.num("usub", 0) != 0;
+    std::map<std::string, std::unique_ptr<tulz::USubscription>> U;
+    std::map<std::string, bool> u_holds;            // wrapped and not unsubscribed through the handle
+    std::map<std::string, typename Run<Sig>::S::Observer_t *> u_obs;
     auto *run = new Run<Sig>();
     auto fsub = run->foreign.subscribe(Sig::cb([](long) {}));
     run->H["hf"] = std::move(fsub);
@@ -217,15 +225,18 @@ void run_typed(const Execution &ex) {
             if (kv.first == "hf") continue;
             if (!first) s += ",";
             first = false;
-            s += jstr(kv.first) + ":" + (kv.second.isValid() ? "true" : "false");
+            bool v = usub ? (U[kv.first] && (*U[kv.first])->isValid()) : kv.second.isValid();
+            s += jstr(kv.first) + ":" + (v ? "true" : "false");
         }
         s += "},\"muted\":{";
         first = true;
         for (auto &kv : run->H) {
-            if (kv.first == "hf" || !kv.second.isValid()) continue;
+            bool v = usub ? (U[kv.first] && (*U[kv.first])->isValid()) : kv.second.isValid();
+            if (kv.first == "hf" || !v) continue;
             if (!first) s += ",";
             first = false;
-            s += jstr(kv.first) + ":" + (kv.second.isMuted() ? "true" : "false");
+            bool m = usub ? (*U[kv.first])->isMuted() : kv.second.isMuted();
+            s += jstr(kv.first) + ":" + (m ? "true" : "false");
         }
         s += "},\"ids\":{";
         first = true;
@@ -250,6 +261,47 @@ void run_typed(const Execution &ex) {
     for (const auto &st : ex.steps) {
         std::string op = st.str("op"), h = st.str("h", "h1"), res = "ok";
         g_log.clear();
+        if (usub) {
+            bool ok = h != "hf";
+            bool valid = ok && U[h] && (*U[h])->isValid();
+            if (op == "Subscribe") ok = ok && !u_holds[h] && run->next_id <= g_max_subs;
+            else if (op == "UnsubH") ok = ok && u_holds[h];
+            else if (op == "Mute") ok = valid && !(*U[h])->isMuted();
+            else if (op == "Unmute") ok = valid && (*U[h])->isMuted();
+            else if (op == "Invalidate") ok = valid && u_obs[h]->isValid();
+            else if (op != "Notify") ok = false;   // UnsubS, Swap
+            if (!ok) {
+                out().line("\"e\":\"Skip\",\"i\":%d", i);
+                ++i;
+                continue;
+            }
+            try {
+                if (op == "Subscribe") {
+                    auto sub = run->do_subscribe(parse_script(st.str("sc", "-")));
+                    u_obs[h] = sub.getObserver();
+                    U[h] = std::make_unique<tulz::USubscription>(std::move(sub));
+                    u_holds[h] = true;
+                } else if (op == "UnsubH") {
+                    (*U[h])->unsubscribe();
+                    u_holds[h] = false;
+                } else if (op == "Mute") {
+                    (*U[h])->mute();
+                } else if (op == "Unmute") {
+                    (*U[h])->unmute();
+                } else if (op == "Invalidate") {
+                    u_obs[h]->invalidate();
+                } else {
+                    g_cur_arg = (int) st.num("a", 1);
+                    g_depth = 1;
+                    Sig::notify(*run->subject, g_cur_arg);
+                }
+            } catch (const std::invalid_argument &) {
+                res = "rejected";
+            }
+            emit(op, res);
+            ++i;
+            continue;
+        }
         if (filter) {
             // random histories: skip operations whose documented precondition does not hold
             auto &hd = run->H[h];
@@ -297,6 +349,7 @@ void run_typed(const Execution &ex) {
         emit(op, res);
         ++i;
     }
+    U.clear();
     // the Subject dies: every observer it still owns is destroyed
     run->subject.reset();
     std::string s = "\"e\":\"Final\",\"destroyed\":[";
